@@ -1,5 +1,309 @@
-import Luqum.Model.Es
+/-
+  C19 — Schema-derived options make the builder nest and type each mapped field right.
+
+  `SchemaAnalyzer(schema).query_builder_options()` (`schemaCfg`) is studied on the JSON `toJson m` of
+  a mapping `m : Props` given as an inductive type (`Luqum.Lemmas.EsSchema.Node`): a node is a leaf
+  (a `type`, optionally an `index` attribute), a multi-field (a leaf with sub `fields`), an object
+  (explicit `"type": "object"`, or implicit: `properties` only) or a nested node. No node has both
+  `fields` and `properties`, so the loop-variable re-binding of `_walk_properties` (modelled
+  literally by `walkProps`) is not observable here. `toJson m = {"mappings": {"properties": …}}`.
+
+  `Props.wf m` (hypothesis of (b'), (c), (d)): at every level sibling names (and the names of the
+  sub fields of a multi-field) are pairwise distinct and contain no dot.
+
+  (a) `walk_enumerates`, `walk_fuel_indep`, `schemaFields_enumerates`: `_walk_properties` yields
+      each field of the mapping (leaves and containers; sub fields when asked) once, in document
+      order, with its true parents; `schemaFields` gives enough fuel. No hypothesis.
+  (b) `notAnalyzed_eq` (no hypothesis): `not_analyzed_fields()` is the list of the dotted paths of
+      the fields whose effective definition is not analysed text; `notAnalyzed_iff` (well-formed
+      mapping): a field at path `p` is listed iff so. NB: an implicit object (no `type` key) IS
+      listed (`None not in (…)`); a sub field inherits the `index` attribute of its multi-field.
+  (c) `nestedFields_eq`: `nested_fields()` is the tree of keys `treeB [] m`: a node is registered
+      iff its direct parent is a nested node or it is a nested node with at least one child; it
+      hangs below its closest registered ancestor under the dotted names in between.
+      `nestedFlat_eq`, `nestedPrefixes_iff` (general, any depth): the dotted path of `q` is a nested
+      prefix of the builder iff `q` is a nested node having a child `c` with nothing registered at or
+      below `c` (`c` is not a nested node with children and, if it is an object, contains no such
+      node). KF5 witnesses: `kf5_*`. `objectPrefixes_iff`: the explicit objects having a direct
+      child whose type is neither `object` nor `nested`.
+  (d) `build_field_word` (any configuration, explicit hypotheses), `build_schema_field` (schema of
+      a well-formed mapping, any leaf / multi-field / sub field given by its dotted path): the
+      result is a `term` clause iff the field is not analysed, else a `match` clause, wrapped in
+      `nested` on the innermost registered nested prefix iff there is one (`build_nested_path`).
+      The field is a leaf-like field: for containers see `esBuild_field_word_container` (refused).
+      Proved in general for a word without wildcard, different from `*`, spelled with the dotted
+      name; the `field:(…)` chain spelling is not covered.
+
+  Spec normalisation lemmas: `Luqum.Lemmas.EsSpecNorm`.
+  Proofs: `Luqum.Lemmas.EsSchemaWalk` (a, b), `EsSchemaPaths` (well-formedness, dotted names),
+  `EsSchemaNested`, `EsSchemaTree`, `EsSchemaPrefixes` (c), `EsSchemaObjects`, `EsSchemaBuild` (d).
+-/
+import Luqum.Lemmas.EsSchemaBuild
+
 namespace Luqum.Props.C19
-open Luqum
+open Luqum Luqum.Lemmas.EsSchema Luqum.Lemmas.EsSpecNorm
+
 theorem normalizeObject_none : normalizeObject .none = none := rfl
+
+/-! ### a sample mapping -/
+
+def lf (ty : String) : Node := .leaf ⟨ty.toList, none⟩
+
+/-- `title` (text, sub field `raw`: keyword), `code` (legacy not analysed string), `author` (explicit
+object), `meta` (implicit object), `comments` (nested, with an object and a nested child), `links`
+(nested, its only child is an object containing a nested node) -/
+def sample : Props :=
+  [ ("title".toList, .multi ⟨"text".toList, none⟩ [("raw".toList, ⟨"keyword".toList, none⟩)]),
+    ("code".toList, .leaf ⟨"string".toList, some "not_analyzed".toList⟩),
+    ("author".toList, .object true [("name".toList, lf "text"), ("id".toList, lf "integer")]),
+    ("meta".toList, .object false [("k".toList, lf "keyword")]),
+    ("comments".toList, .nested
+      [ ("text".toList, lf "text"), ("date".toList, lf "date"),
+        ("by".toList, .object true [("nick".toList, lf "keyword")]),
+        ("replies".toList, .nested [("body".toList, lf "text")]) ]),
+    ("links".toList, .nested
+      [ ("inner".toList, .object true [("deep".toList, .nested [("url".toList, lf "keyword")])]) ]) ]
+
+example : Props.wf sample = true := by decide
+
+/-! ### (a) the walk over the properties -/
+
+/-- **(a)** with fuel at least the nesting of the mapping, `_walk_properties` on the JSON of the
+properties `ps` yields exactly the structural enumeration `enumProps` (each field once, in document
+order, with the names and definitions of its true parents; sub fields iff `sf`) -/
+theorem walk_enumerates (sf : Bool) (ps : Props) (fuel : Nat) (parents : Parents)
+    (h : Props.depth ps ≤ fuel) :
+    walkProps sf fuel (propsJson ps) parents = enumProps sf parents ps :=
+  walkProps_eq_enum sf ps fuel parents h
+
+/-- fuel independence -/
+theorem walk_fuel_indep (sf : Bool) (ps : Props) (f1 f2 : Nat) (parents : Parents)
+    (h1 : Props.depth ps ≤ f1) (h2 : Props.depth ps ≤ f2) :
+    walkProps sf f1 (propsJson ps) parents = walkProps sf f2 (propsJson ps) parents :=
+  walkProps_fuel_indep sf ps f1 f2 parents h1 h2
+
+/-- `iter_fields` on the schema of a mapping: `schemaFields` provides enough fuel -/
+theorem schemaFields_enumerates (m : Props) (sf : Bool) :
+    schemaFields (toJson m) sf = enumProps sf [] m :=
+  schemaFields_toJson m sf
+
+example : (schemaFields (toJson sample) true).map (fun e => joinDot (e.2.2.map (·.1) ++ [e.1])) =
+    ["title", "title.raw", "code", "author", "author.name", "author.id", "meta", "meta.k",
+     "comments", "comments.text", "comments.date", "comments.by", "comments.by.nick",
+     "comments.replies", "comments.replies.body", "links", "links.inner", "links.inner.deep",
+     "links.inner.deep.url"].map String.toList := by decide +kernel
+
+example : (schemaFields (toJson sample) false).length = 18 := by decide +kernel
+
+/-! ### (b) the not analysed fields -/
+
+/-- **(b)** `not_analyzed_fields()` of the schema of a mapping: the dotted paths of the fields
+(leaves, sub fields and containers, in document order) whose effective (type, index) passes the test
+`notAnalysedDef` -/
+theorem notAnalyzed_eq (m : Props) :
+    (schemaCfg (toJson m)).notAnalyzed =
+      (allFields m).filterMap fun pf => if pf.2.notAnalysed then some (joinDot pf.1) else none :=
+  schemaNotAnalyzed_toJson m
+
+/-- **(b')** in a well-formed mapping, the field at path `p` is listed as not analysed iff its type
+is none of text / string / nested / object, or it is a legacy `string` with `index: not_analyzed` -/
+theorem notAnalyzed_iff {m : Props} (h : Props.wf m = true) {p : List Str} {f : Field}
+    (hm : (p, f) ∈ allFields m) :
+    joinDot p ∈ (schemaCfg (toJson m)).notAnalyzed ↔ notAnalysedDef f.ty f.idx = true :=
+  mem_schemaNotAnalyzed h hm
+
+example : (schemaCfg (toJson sample)).notAnalyzed =
+    ["title.raw", "code", "author.id", "meta", "meta.k", "comments.date", "comments.by.nick",
+     "links.inner.deep.url"].map String.toList := by decide +kernel
+
+/-- a sub field inherits `index: not_analyzed` from its multi-field -/
+example : (schemaCfg (toJson [("s".toList, .multi ⟨"string".toList, some "not_analyzed".toList⟩
+      [("a".toList, ⟨"string".toList, none⟩), ("b".toList, ⟨"string".toList, some "analyzed".toList⟩)])])).notAnalyzed =
+    ["s", "s.a"].map String.toList := by decide +kernel
+
+/-! ### (c) nested fields and nested prefixes -/
+
+/-- **(c)** `nested_fields()` of the schema of a well-formed mapping is the tree of keys of the
+mapping -/
+theorem nestedFields_eq {m : Props} (h : Props.wf m = true) :
+    schemaNestedFields (toJson m) = kidsJson (treeB [] m) :=
+  schemaNestedFields_tree h
+
+/-- the flat nested fields: the dotted paths of the leaves of the tree of keys; a path `p` is such a
+leaf iff it is a child `c` of a nested node with nothing registered at or below `c` -/
+theorem nestedFlat_eq {m : Props} (h : Props.wf m = true) :
+    (schemaCfg (toJson m)).nestedFlat =
+      if Props.hasReg m then dedup ((leavesB [] m).map joinDot) else [[]] :=
+  nestedFlat_toJson h
+
+theorem mem_leaves (m : Props) (p : List Str) :
+    p ∈ leavesB [] m ↔ ∃ q c ps' cn, p = q ++ [c] ∧ (q, Field.node (.nested ps')) ∈ allFields m ∧
+      (c, cn) ∈ ps' ∧ cn.hasReg = false :=
+  mem_leavesB_allFields m p
+
+/-- **(c)** the nested prefixes of the builder configured from the schema of a well-formed
+mapping: for a non-empty path `q` of names without dot (and not all empty), `joinDot q` is a nested
+prefix iff `q` is the path of a nested node having a child at or below which nothing is registered.
+
+The full statement "`q` is the path of a nested node" is FALSE (KF5): see `kf5_not_registered`. -/
+theorem nestedPrefixes_iff {m : Props} (h : Props.wf m = true) {q : List Str} (hq : q ≠ [])
+    (dq : DotFree q) (hne : joinDot q ≠ []) :
+    joinDot q ∈ (schemaCfg (toJson m)).nestedPrefixes ↔
+      ∃ ps', (q, Field.node (.nested ps')) ∈ allFields m ∧ ∃ c ∈ ps', c.2.hasReg = false :=
+  mem_nestedPrefixes h hq dq hne
+
+/-- the object prefixes: the explicit objects with a direct child which is not a container -/
+theorem objectPrefixes_iff {m : Props} (h : Props.wf m = true) {q : List Str} (hq : q ≠ [])
+    (dq : DotFree q) :
+    joinDot q ∈ (schemaCfg (toJson m)).objectPrefixes ↔
+      ∃ ps', (q, Field.node (.object true ps')) ∈ allFields m ∧
+        ∃ c ∈ ps', c.2.isContainerTy = false :=
+  mem_objectPrefixes h hq dq
+
+example : (schemaCfg (toJson sample)).nestedFlat =
+    ["comments.text", "comments.date", "comments.by", "comments.replies.body",
+     "links.inner.deep.url"].map String.toList := by decide +kernel
+
+/-- KF5 witness: `links` is a nested node, but its only child is an object containing a nested
+node: `links` is not a nested prefix (`links.inner.deep` is) -/
+theorem kf5_not_registered : (schemaCfg (toJson sample)).nestedPrefixes =
+    ["comments", "comments.replies", "links.inner.deep"].map String.toList := by decide +kernel
+
+example : (schemaCfg (toJson sample)).objectPrefixes = ["author", "comments.by"].map String.toList := by
+  decide +kernel
+
+/-- a nested node whose only children are nested nodes (with children) is not a nested prefix -/
+theorem kf5_only_nested_children :
+    (schemaCfg (toJson [("n".toList, .nested [("m".toList, .nested [("x".toList, lf "text")])])])).nestedPrefixes =
+      ["n.m".toList] := by decide +kernel
+
+/-- … it is one as soon as it has a leaf child, or an object child without nested node inside -/
+example : (schemaCfg (toJson [("n".toList, .nested [("m".toList, .nested [("x".toList, lf "text")]),
+      ("y".toList, lf "text")])])).nestedPrefixes = ["n.m".toList, "n".toList] := by decide +kernel
+
+example : (schemaCfg (toJson [("n".toList, .nested [("o".toList, .object true [("x".toList, lf "text")])])])).nestedPrefixes =
+      ["n".toList] := by decide +kernel
+
+/-- nested inside object inside nested, under a top-level object: cumulated names -/
+example : schemaNestedFields (toJson [("o".toList, .object true [("n".toList, .nested
+      [("q".toList, .object false [("r".toList, .nested [("x".toList, lf "text")])]), ("w".toList, lf "text")])])]) =
+    [("o.n".toList, .obj [("q".toList, .obj [("r".toList, .obj [("x".toList, .obj [])])]), ("w".toList, .obj [])])] := by
+  rfl
+
+/-- no registered nested field at all: the builder's nested prefixes are `[""]` (which is why
+`nestedPrefixes_iff` asks for `joinDot q ≠ ""`) -/
+example : (schemaCfg (toJson [("a".toList, lf "text"), ("n".toList, .nested [])])).nestedPrefixes = [[]] := by
+  decide +kernel
+
+/-! ### (d) the query built for `field:word` -/
+
+/-- **(d), any configuration** (no field options, no sub-field specification, no
+`match_word_as_phrase`): for a dotted field which is neither a nested nor an object prefix and a word
+without wildcard, different from `*`, the result is a `term` clause iff the field is not analysed,
+else a `match` clause, wrapped in `nested` on the innermost registered nested prefix of the path iff
+there is one -/
+theorem build_field_word (c : EsCfg) (p : List Str) (v : Str) (hp : p ≠ []) (dp : DotFree p)
+    (hopt : c.fieldOptions = []) (hphr : c.matchWordAsPhrase = false) (hsub : c.subFields = .none)
+    (hn : c.nestedPrefixes.contains (joinDot p) = false)
+    (ho : c.objectPrefixes.contains (joinDot p) = false)
+    (hw : hasWildcard v = false) (hs : v ≠ ['*']) :
+    esBuild c (.field (joinDot p) (.term .word v {}) {}) =
+      .ok (wrapNested (innermostNested c p)
+        (wordClause (c.notAnalyzed.contains (joinDot p)) (joinDot p) v)) :=
+  esBuild_field_word c p v hp dp hopt hphr hsub hn ho hw hs
+
+/-- **(d), schema of a well-formed mapping**: for any leaf, multi-field or sub field `f` at path `p`
+(whose dotted name is not empty) the query `p₁.p₂.….pₙ:v` builds the clause on the dotted name,
+term-level iff `f` is not analysed text, wrapped on the innermost registered nested prefix -/
+theorem build_schema_field {m : Props} (h : Props.wf m = true) {p : List Str} {f : Field}
+    (hm : (p, f) ∈ allFields m) (hf : f.isLeafLike = true) (hne : joinDot p ≠ []) (v : Str)
+    (hw : hasWildcard v = false) (hs : v ≠ ['*']) :
+    esBuild (schemaCfg (toJson m)) (.field (joinDot p) (.term .word v {}) {}) =
+      .ok (wrapNested (innermostNested (schemaCfg (toJson m)) p)
+        (wordClause (notAnalysedDef f.ty f.idx) (joinDot p) v)) :=
+  esBuild_schema_field h hm hf hne v hw hs
+
+/-- the path of the `nested` wrapper: the dotted path of the longest prefix `q` of `p` which is a
+nested node having a child at or below which nothing is registered. (Not always the innermost
+nested ancestor of the field: `kf5_unwrapped`.) -/
+theorem build_nested_path {m : Props} (h : Props.wf m = true) {p : List Str} (dp : DotFree p)
+    (hne : ∀ x ∈ p, x ≠ []) {x : Str} (hx : innermostNested (schemaCfg (toJson m)) p = some x) :
+    ∃ q ps', q <+: p ∧ x = joinDot q ∧ (q, Field.node (.nested ps')) ∈ allFields m ∧
+      (∃ c ∈ ps', c.2.hasReg = false) ∧
+      ∀ q', q' <+: p → q.length < q'.length →
+        joinDot q' ∉ (schemaCfg (toJson m)).nestedPrefixes :=
+  innermostNested_schema h dp hne hx
+
+/-- no wrapper iff no non-empty prefix of the path is a nested prefix -/
+theorem build_no_nested_path {c : EsCfg} {p : List Str} :
+    innermostNested c p = none ↔
+      ∀ j, 1 ≤ j → j ≤ p.length → c.nestedPrefixes.contains (joinDot (p.take j)) = false :=
+  innermostNested_eq_none
+
+def q (f v : String) : Tree := .field f.toList (.term .word v.toList {}) {}
+
+/-- `comments.replies.body:hello` — analysed text inside nested inside nested -/
+example : esBuild (schemaCfg (toJson sample)) (q "comments.replies.body" "hello") =
+    .ok (.obj [("nested".toList, .obj [("path".toList, .str "comments.replies".toList),
+      ("query".toList, .obj [("match".toList, .obj [("comments.replies.body".toList,
+        .obj [("query".toList, .str "hello".toList),
+              ("zero_terms_query".toList, .str "none".toList)])])])])]) := by
+  have h := build_schema_field (m := sample) (by decide)
+    (p := ["comments".toList, "replies".toList, "body".toList]) (f := Field.node (lf "text"))
+    (by simp [allFields, fieldsProps, fieldsNode, sample, lf]) rfl (by decide) "hello".toList
+    (by decide) (by decide)
+  have hi : innermostNested (schemaCfg (toJson sample))
+      ["comments".toList, "replies".toList, "body".toList] = some "comments.replies".toList := by
+    decide +kernel
+  rw [hi] at h
+  exact h
+
+/-- `comments.by.nick:bob` — keyword in an object inside a nested node -/
+example : esBuild (schemaCfg (toJson sample)) (q "comments.by.nick" "bob") =
+    .ok (.obj [("nested".toList, .obj [("path".toList, .str "comments".toList),
+      ("query".toList, .obj [("term".toList, .obj [("comments.by.nick".toList,
+        .obj [("value".toList, .str "bob".toList)])])])])]) := by
+  have h := build_schema_field (m := sample) (by decide)
+    (p := ["comments".toList, "by".toList, "nick".toList]) (f := Field.node (lf "keyword"))
+    (by simp [allFields, fieldsProps, fieldsNode, sample, lf]) rfl (by decide) "bob".toList
+    (by decide) (by decide)
+  have hi : innermostNested (schemaCfg (toJson sample))
+      ["comments".toList, "by".toList, "nick".toList] = some "comments".toList := by
+    decide +kernel
+  rw [hi] at h
+  exact h
+
+/-- `title.raw:x` — a sub field, not nested -/
+example : esBuild (schemaCfg (toJson sample)) (q "title.raw" "x") =
+    .ok (.obj [("term".toList, .obj [("title.raw".toList, .obj [("value".toList, .str "x".toList)])])]) := by
+  have h := build_schema_field (m := sample) (by decide)
+    (p := ["title".toList, "raw".toList]) (f := Field.sub ⟨"text".toList, none⟩ ⟨"keyword".toList, none⟩)
+    (by simp [allFields, fieldsProps, fieldsNode, sample]) rfl (by decide) "x".toList
+    (by decide) (by decide)
+  have hi : innermostNested (schemaCfg (toJson sample)) ["title".toList, "raw".toList] = none := by
+    decide +kernel
+  rw [hi] at h
+  exact h
+
+/-- KF5 witness, end to end: `x` lies in the object `o` of the nested node `n`, but `o` also
+contains a nested node, so that `n` is not a nested prefix: the clause on `n.o.x` is NOT wrapped -/
+theorem kf5_unwrapped :
+    esBuild (schemaCfg (toJson [("n".toList, .nested [("o".toList, .object true
+        [("x".toList, lf "text"), ("m".toList, .nested [("y".toList, lf "text")])])])]))
+      (q "n.o.x" "v") =
+    .ok (.obj [("match".toList, .obj [("n.o.x".toList,
+        .obj [("query".toList, .str "v".toList), ("zero_terms_query".toList, .str "none".toList)])])]) := by
+  have h := build_schema_field
+    (m := [("n".toList, .nested [("o".toList, .object true
+        [("x".toList, lf "text"), ("m".toList, .nested [("y".toList, lf "text")])])])])
+    (by decide) (p := ["n".toList, "o".toList, "x".toList]) (f := Field.node (lf "text"))
+    (by simp [allFields, fieldsProps, fieldsNode, lf]) rfl (by decide) "v".toList
+    (by decide) (by decide)
+  have hi : innermostNested (schemaCfg (toJson [("n".toList, .nested [("o".toList, .object true
+        [("x".toList, lf "text"), ("m".toList, .nested [("y".toList, lf "text")])])])]))
+      ["n".toList, "o".toList, "x".toList] = none := by
+    decide +kernel
+  rw [hi] at h
+  exact h
+
 end Luqum.Props.C19
